@@ -1725,7 +1725,12 @@ string StringReader::get_line(bool advance) {
     }
   }
   if (advance) {
-    this->offset += (ret.size() + 1);
+    this->offset += ret.size();
+    // Skip the \n too, but only if there is one (the last line may be
+    // unterminated, and the offset must not go beyond the end of the data)
+    if (this->offset < this->length) {
+      this->offset++;
+    }
   }
   if (ends_with(ret, "\r")) {
     ret.pop_back();
